@@ -174,7 +174,9 @@ func dirtyPoint(r *kit.Rand, t int64) string {
 	fields := []string{"v=" + renderValue(1.5)}
 	d := kit.Pick(r, dirtyStr)
 	bs := kit.Pick(r, []string{"a\\", "\\", "a\\,b", "a\\ b", "x\\y", "a\\=b", "\\\\"})
-	switch r.Intn(13) {
+	switch r.Intn(15) {
+	case 13, 14: // the first field key starts with whitespace that the parser skips (finding stream-whitespace-fieldkey)
+		fields = []string{kit.Esc(kit.Pick(r, []string{"\tv", "\x00k", "\t", "\t v", "\t\tx"})) + "=" + renderValue(int64(3)), "z=" + renderValue(true)}
 	case 9: // a backslash in a name (finding stream-backslash-name)
 		name = bs
 	case 10:
@@ -358,7 +360,187 @@ func genBatch(r *kit.Rand, i int, tier string) []string {
 	return ops
 }
 
+// ---- live replays (nothing recorded: the items go to Replay*FromChan on a channel, as services/replay does for replay-live) ----
+
+func genLiveStream(r *kit.Rand, i int, tier string) []string {
+	ops := genStream(r, i, tier)
+	h := strings.Fields(ops[0])
+	ops[0] = fmt.Sprintf("stream %s %s n live", h[1], h[2])
+	return ops
+}
+
+// genLiveBatch: the batches a channel can carry and a recording cannot: batches WITHOUT points (with a batch time = the
+// query's stop time, or with the zero time as ResultToBufferedBatches leaves it), leading / trailing / consecutive
+// empty batches, int fields, tagless points.
+func genLiveBatch(r *kit.Rand, i int, tier string) []string {
+	kind := kit.Pick(r, []int{3, 5, 3, 5, 5, 2, 9, 1, 6, 0})
+	ops := genBatch(r, kind, tier)
+	h := strings.Fields(ops[0])
+	ops[0] = fmt.Sprintf("batch %s %s live", h[1], h[2])
+	for k, l := range ops {
+		t := strings.Fields(l)
+		if len(t) != 6 || t[0] != "b" {
+			continue
+		}
+		if (t[5] == "-" && r.Chance(1, 3)) || r.Chance(1, 12) {
+			t[3] = "Z" // b.Begin().Time().IsZero()
+			ops[k] = strings.Join(t, " ")
+		}
+	}
+	if r.Chance(1, 4) { // a leading empty batch that carries the first timestamp of the replay
+		h := strings.Fields(ops[0])
+		z, _ := strconv.ParseInt(h[2], 10, 64)
+		first := z - int64(r.Intn(2000)) + 1000
+		for _, l := range ops[1:] {
+			t := strings.Fields(l)
+			if len(t) == 6 && t[0] == "b" && t[3] != "Z" {
+				first, _ = strconv.ParseInt(t[3], 10, 64)
+				first -= int64(r.Intn(1000))
+				break
+			}
+		}
+		lead := fmt.Sprintf("b %s %s %d %s -", kit.Esc(kit.Pick(r, cleanNames)), b01(r.Bool()), first, genTags(r, r.Intn(2)))
+		ops = append([]string{ops[0], lead}, ops[1:]...)
+	}
+	return ops
+}
+
+// ---- line-protocol lines generated from the MODEL's grammar (Kap.C18.lineOf), not by the real writer ----
+
+func mEscMeas(s string) string {
+	return strings.NewReplacer(",", "\\,", " ", "\\ ").Replace(s)
+}
+func mEscTag(s string) string {
+	return strings.NewReplacer(",", "\\,", " ", "\\ ", "=", "\\=").Replace(s)
+}
+func mEscKey(s string) string {
+	return strings.NewReplacer(",", "\\,", "\"", "\\\"", " ", "\\ ", "=", "\\=").Replace(s)
+}
+func mEscStr(s string) string {
+	return strings.NewReplacer("\"", "\\\"", "\\", "\\\\").Replace(s)
+}
+
+var lpAlpha = []string{"a", "b", ",", " ", "=", "\"", "é", "#", "i", "t", "1", "T", "-", ".", "日", "\t", "'", "x", ",", " ", "="}
+var lpStrAlpha = []string{"a", "\"", "\\", ",", " ", "=", "\n", "é", "n", "i", "#", "\r", "\"", "\\", "\t", "1"}
+
+// lpWord: a non-empty word over the alphabet in which the special bytes occur at EVERY position (first, last,
+// adjacent); idx enumerates the short words exhaustively before random ones are drawn.
+func lpWord(r *kit.Rand, alpha []string, minLen int) string {
+	n := r.Range(minLen, 4)
+	if r.Chance(1, 10) {
+		n = r.Range(5, 9)
+	}
+	var sb strings.Builder
+	for k := 0; k < n; k++ {
+		sb.WriteString(kit.Pick(r, alpha))
+	}
+	return sb.String()
+}
+
+func lpName(r *kit.Rand) string {
+	for {
+		w := lpWord(r, lpAlpha, 1)
+		if w[0] != '#' && w[0] != '\t' {
+			return w
+		}
+	}
+}
+
+// lpDistinct: distinct words; a word that is nothing but TAB / NUL is left out (as a field key it is an EMPTY key
+// after the parser's skipWhitespace, which the real field iterator silently drops and the model's parser rejects:
+// outside the grammar, covered by finding stream-whitespace-fieldkey on the replay level).
+func lpDistinct(r *kit.Rand, n int) []string {
+	seen := map[string]bool{}
+	var ws []string
+	for len(ws) < n {
+		w := lpWord(r, lpAlpha, 1)
+		if strings.TrimLeft(w, "\t\x00") == "" {
+			continue
+		}
+		if !seen[w] {
+			seen[w] = true
+			ws = append(ws, w)
+		}
+	}
+	return ws
+}
+
+// lpLine returns one line of the model's grammar and the float oracle (bits~text of every float literal in it).
+func lpLine(r *kit.Rand) (string, string) {
+	var sb strings.Builder
+	var orc []string
+	sb.WriteString(mEscMeas(lpName(r)))
+	tk := lpDistinct(r, kit.Pick(r, []int{0, 0, 1, 1, 2, 3}))
+	if !r.Chance(1, 5) {
+		sort.Strings(tk) // the writer sorts; the parser must sort what is not
+	}
+	for _, k := range tk {
+		sb.WriteString("," + mEscTag(k) + "=" + mEscTag(lpWord(r, lpAlpha, 1)))
+	}
+	sb.WriteString(" ")
+	fk := lpDistinct(r, r.Range(1, 3))
+	if !r.Chance(1, 5) {
+		sort.Strings(fk)
+	}
+	for j, k := range fk {
+		if j > 0 {
+			sb.WriteString(",")
+		}
+		sb.WriteString(mEscKey(k) + "=")
+		switch r.Intn(5) {
+		case 0:
+			x := kit.Pick(r, floats)
+			if r.Chance(1, 2) {
+				x = math.Float64frombits(r.U64())
+				if math.IsNaN(x) || math.IsInf(x, 0) {
+					x = 7.25
+				}
+			}
+			txt := string(strconv.AppendFloat(nil, x, 'f', -1, 64))
+			orc = append(orc, kit.F64(x)+"~"+kit.Esc(txt))
+			sb.WriteString(txt)
+		case 1:
+			v := kit.Pick(r, bigInts)
+			if r.Chance(1, 2) {
+				v = int64(r.U64())
+			}
+			sb.WriteString(strconv.FormatInt(v, 10) + "i")
+		case 2, 3:
+			sb.WriteString("\"" + mEscStr(lpWord(r, lpStrAlpha, 0)) + "\"")
+		default:
+			sb.WriteString(kit.Pick(r, []string{"true", "false", "true", "false", "t", "T", "True", "TRUE", "f", "F", "False", "FALSE"}))
+		}
+	}
+	ts := genTimes(r, 1)[0]
+	sb.WriteString(" " + strconv.FormatInt(ts, 10))
+	return sb.String(), list(orc, ",")
+}
+
+func genLP(r *kit.Rand, i int, tier string) []string {
+	var ops []string
+	n := r.Range(3, 8)
+	for k := 0; k < n; k++ {
+		line, orc := lpLine(r)
+		ops = append(ops, fmt.Sprintf("lp n %s %s", kit.Esc(line), orc))
+	}
+	return append(ops, "lpend")
+}
+
 func genCase(r *kit.Rand, i int, tier string) []string {
+	// every fifth case is one of the kinds added later (live stream, live batch, parser); the others see the
+	// same consecutive index sequence as before
+	if i%5 == 4 {
+		j := i / 5
+		switch j % 3 {
+		case 0:
+			return genLiveStream(r, j/3, tier)
+		case 1:
+			return genLiveBatch(r, j/3, tier)
+		default:
+			return genLP(r, j/3, tier)
+		}
+	}
+	i -= i / 5
 	if i%2 == 0 {
 		return genStream(r, i/2, tier)
 	}
